@@ -54,6 +54,7 @@ type c06World struct {
 	// claim layout: the keyed session K is not negotiated but minted as a claim session on
 	// the server and imported by the client (flagged inherited, finite lifetime, no lease)
 	claim     bool
+	claimOff  bool // ... minted with Encryption and Integrity both switched off in its policy
 	idKnown   bool
 }
 
@@ -103,7 +104,12 @@ func (w *c06World) establishU() bool {
 
 func (w *c06World) establishClaim() bool {
 	const srv = "<" + hsServerAddr + ">"
-	mc, err := security.MintClaimSession(security.GetSessionCache(), security.MintClaimOptions{Sinful: srv, Birthdate: 1700000000, SequenceNum: 1, Lifetime: c06Duration * time.Second, ValidCommands: []int{5}})
+	mo := security.MintClaimOptions{Sinful: srv, Birthdate: 1700000000, SequenceNum: 1, Lifetime: c06Duration * time.Second, ValidCommands: []int{5}}
+	if w.claimOff {
+		off := false
+		mo.Encryption, mo.Integrity = &off, &off
+	}
+	mc, err := security.MintClaimSession(security.GetSessionCache(), mo)
 	if err != nil {
 		w.viol("harness-establish", "mint: %v", err)
 		return false
@@ -615,9 +621,13 @@ func c06Replay(hist []string, res *vlib.Result, layout int) *c06World {
 		c06SrvCache = security.NewSessionCache()
 		w.hist = "servers with a SessionCache of their own: " + w.hist
 	}
-	if layout == 2 {
+	if layout == 2 || layout == 3 {
 		w.claim = true
 		w.hist = "keyed session minted/imported as a claim session: " + w.hist
+	}
+	if layout == 3 {
+		w.claimOff = true
+		w.hist = "(its policy says Encryption=NO, Integrity=NO) " + w.hist
 	}
 	for _, ev := range hist {
 		if !w.apply(ev) {
@@ -682,7 +692,7 @@ func c06BFS(depth int, res *vlib.Result, layout int) {
 func C06Plan() *vlib.Plan {
 	p := &vlib.Plan{
 		Property: "C06", Level: "model_checking", Workers: 1,
-		Rule:   "E-BFS on the real server resumption path. Events: establish a keyed session (real handshake), establish a key-less session (no common cipher), scripted resumption with the right id+key from another address, legitimate client resumption, advance virtual time by lease/2, lease+60, duration+60, invalidate K / L, sweep expired. A state is the event history replayed on a cleared cache; canonical key = (status and remaining-lifetime bucket of K and L, client still holds K, replay recorded). In EVERY state a battery of scripted requests is fired: {K, L, unknown id} x {wrong key, no key} x {reply requested, not} x {same, different source address}, every single-character alteration of a live id (once), and byte-for-byte replays (whole and truncated at every frame boundary) of a recorded legitimate resumed connection. The whole search runs three times: with the keyed session minted/imported as a claim session (inherited flag, finite lifetime, no lease) instead of negotiated; servers on the package-global cache, and servers configured with a SessionCache of their own and an identity-mapping PostAuthPolicy (sessions are invalidated through the package API, swept in both). Oracle = reference map id -> {key?, expiry, invalidated}. traces = states replayed; transitions = events + probes executed.",
+		Rule:   "E-BFS on the real server resumption path. Events: establish a keyed session (real handshake), establish a key-less session (no common cipher), scripted resumption with the right id+key from another address, legitimate client resumption, advance virtual time by lease/2, lease+60, duration+60, invalidate K / L, sweep expired. A state is the event history replayed on a cleared cache; canonical key = (status and remaining-lifetime bucket of K and L, client still holds K, replay recorded). In EVERY state a battery of scripted requests is fired: {K, L, unknown id} x {wrong key, no key} x {reply requested, not} x {same, different source address}, every single-character alteration of a live id (once), and byte-for-byte replays (whole and truncated at every frame boundary) of a recorded legitimate resumed connection. The whole search runs four times: with the keyed session minted/imported as a claim session (inherited flag, finite lifetime, no lease) instead of negotiated, once with the default policy and once minted with Encryption and Integrity off (it still carries a key, and a resumed connection is protected by it); servers on the package-global cache, and servers configured with a SessionCache of their own and an identity-mapping PostAuthPolicy (sessions are invalidated through the package API, swept in both). Oracle = reference map id -> {key?, expiry, invalidated}. traces = states replayed; transitions = events + probes executed.",
 		Assume: []string{"virtual time = re-storing every cache entry with its expiration moved back (public API), margins of 60 s against real time", "single process, sequential (the server-side cache is process-global)"},
 	}
 	p.Gen = func(tier string, yield func(vlib.Case)) {
@@ -701,6 +711,11 @@ func C06Plan() *vlib.Plan {
 		yield(vlib.Case{ID: fmt.Sprintf("bfs/claim-session/depth=%d", D), Run: func() *vlib.Result {
 			res := &vlib.Result{}
 			c06BFS(D, res, 2)
+			return res
+		}})
+		yield(vlib.Case{ID: fmt.Sprintf("bfs/claim-session-enc-and-integrity-off/depth=%d", D), Run: func() *vlib.Result {
+			res := &vlib.Result{}
+			c06BFS(D, res, 3)
 			return res
 		}})
 		// the same search over servers configured with a session cache of their own
